@@ -129,6 +129,27 @@ def _loop_headers() -> Dict[str, Dict[str, str]]:
     return _LOOP_HEADERS
 
 
+def _current_loop_headers(fn_node: Any) -> Dict[int, Tuple[str, str]]:
+    r = getattr(fn_node, '_pyvc_loop_headers', None)
+    if r is None:
+        from .extract import loop_ordinals
+
+        r = {}
+        labels = loop_ordinals(fn_node)
+        for n in _walk_no_nested(fn_node):
+            if id(n) in labels:
+                try:
+                    h = ('while ' + ast.unparse(n.test)) if isinstance(n, ast.While) else ('for ' + ast.unparse(n.target) + ' in ' + ast.unparse(n.iter))
+                except Exception:
+                    h = '?'
+                r[id(n)] = (labels[id(n)], h)
+        try:
+            fn_node._pyvc_loop_headers = r
+        except AttributeError:
+            pass
+    return r
+
+
 def _has_yield(node: Any) -> bool:
     # memoised on the AST node itself (the node, hence the answer, lives as long as the source index of this run)
     r = getattr(node, '_pyvc_has_yield', None)
@@ -777,12 +798,20 @@ class Interp:
         rf = os.environ.get('PYVC_RECORD_LOOPS')
         rec = {} if rf else _loop_headers().get(key, {})  # recording mode (unchanged tree): plain ordinal lookup, the table is being rebuilt
         if header is not None and rec:
+            # Positive evidence only: a contract follows its loop when the header it was written for occurs at exactly ONE loop of the current
+            # function.  A header that no longer occurs anywhere (renamed loop variable, rewritten condition) says nothing: ordinal stays.
+            cur = _current_loop_headers(f.closure.node)          # id(node) -> (ordinal label, header)
+            count = {}
+            for _lb, _h in cur.values():
+                count[_h] = count.get(_h, 0) + 1
             kind = label.split('#')[0]
-            cands = [lb for lb, h in rec.items() if h == header and lb.split('#')[0] == kind and self.registry.loop_spec(key, lb) is not None]
-            if len(cands) == 1:
-                return self.registry.loop_spec(key, cands[0]), cands[0]
-            if label in rec and rec[label] != header and self.registry.loop_spec(key, label) is not None and not cands:
-                # the contract registered under this ordinal was written for another loop, and this loop has none
+            claimed = [lb for lb, h in rec.items() if h == header and count.get(h) == 1 and lb.split('#')[0] == kind
+                       and self.registry.loop_spec(key, lb) is not None]
+            if len(claimed) == 1:
+                return self.registry.loop_spec(key, claimed[0]), claimed[0]
+            h_own = rec.get(label)
+            if h_own is not None and h_own != header and count.get(h_own) == 1:
+                # the contract registered under this ordinal has demonstrably moved to another loop of this function
                 return None, label
         spec = self.registry.loop_spec(key, label)
         if spec is not None and rf and header is not None:
@@ -960,6 +989,10 @@ class Interp:
             return it
         if hasattr(it, '__pyvc_iter__'):
             return it.__pyvc_iter__()
+        if hasattr(it, '__pyvc_seq__'):
+            # a sequence of symbolic length can only be traversed under a loop contract; python's fallback protocols (iter() via __getitem__)
+            # would silently traverse something else (seen: an EMPTY traversal, hence a wrong verdict, when a loop lost its contract)
+            raise Unreached('iteration over a symbolic-length sequence %r without a loop contract' % type(it).__name__)
         if isinstance(it, Sym):
             raise Unreached('iteration over symbolic %r without invariant' % (it,))
         if it is None or isinstance(it, (bool, int, float)):
